@@ -348,24 +348,52 @@ func encodeCRLSet(seq, parents int, blocked []string, issuers [][]byte, serials 
 	return out
 }
 
+// boundary-shaped serial byte strings: empty, single 0x00, all-zero, leading and trailing 0x00
+// bytes, 0x80 / 0xff first byte, lengths 1 / 2 / 16 / 20 (255 separately: its literal is costly)
+var serialShapes = [][]byte{
+	{}, {0}, {0, 0}, {1}, {0x80}, {0xff}, {0, 1}, {1, 0}, {0, 0x80}, {0x80, 0}, {0xff, 0xff}, {0, 0, 7}, {7, 0, 0}, {0x7f, 0x10, 0, 0},
+	append([]byte{0}, bytes.Repeat([]byte{0x5a}, 15)...), append(bytes.Repeat([]byte{0x5a}, 15), 0), make([]byte, 16),
+	append([]byte{0x80}, bytes.Repeat([]byte{0x11}, 15)...),
+	append([]byte{0x80}, bytes.Repeat([]byte{0x22}, 19)...), append(bytes.Repeat([]byte{0x33}, 18), 0, 0), make([]byte, 20),
+	append([]byte{0, 0xff}, bytes.Repeat([]byte{0x44}, 18)...),
+}
+
 func genSerial(c *vh.Ctx) []byte {
-	switch c.Intn(8) {
-	case 0:
-		return []byte{}
-	case 1:
-		return []byte{0}
-	case 2:
+	switch c.Intn(10) {
+	case 0, 1, 2, 3, 4:
+		return serialShapes[c.Intn(len(serialShapes))]
+	case 5:
 		return append([]byte{0, 0}, c.Bytes(1+c.Intn(3))...) // leading zeros
-	case 3:
-		return c.Bytes(20)
-	case 4:
-		if c.Intn(3) == 0 {
-			return bytes.Repeat([]byte{0xff}, 255)
+	case 6:
+		return append(c.Bytes(1+c.Intn(3)), 0, 0) // trailing zeros
+	case 7:
+		if c.Intn(4) == 0 {
+			return append(bytes.Repeat([]byte{0xff}, 254), 0) // 255 bytes, trailing zero
 		}
-		return c.Bytes(33)
+		return c.Bytes(20)
 	default:
 		return c.Bytes(1 + c.Intn(9))
 	}
+}
+
+// the numbers next to a listed serial: +1, negated, and what dropping / adding a trailing or
+// leading byte of its encoding gives
+func serialNeighbours(b []byte) []string {
+	v := new(big.Int).SetBytes(b)
+	out := []string{v.String(), new(big.Int).Add(v, big.NewInt(1)).String(), new(big.Int).Neg(v).String(),
+		new(big.Int).Rsh(v, 8).String(), new(big.Int).Lsh(v, 8).String()}
+	if len(b) > 1 {
+		out = append(out, new(big.Int).SetBytes(b[1:]).String())
+	}
+	if len(b) > 0 {
+		out = append(out, new(big.Int).SetBytes(append([]byte{1}, b...)).String())
+	}
+	return out
+}
+
+func decToBytes(s string) []byte {
+	v, _ := new(big.Int).SetString(s, 10)
+	return v.Bytes()
 }
 
 func (r *runner) genCRLSets(c *vh.Ctx, n int) {
@@ -374,17 +402,35 @@ func (r *runner) genCRLSets(c *vh.Ctx, n int) {
 		var issuers [][]byte
 		var serials [][][]byte
 		m := &setModel{Serials: map[string][]string{}, Sequence: c.Intn(100000), Parents: ni}
+		listed := map[string][][]byte{} // issuer -> serial byte strings as encoded
 		for i := 0; i < ni; i++ {
 			h := c.Bytes(32)
-			if c.Intn(6) == 0 {
+			switch c.Intn(10) {
+			case 0:
 				h = bytes.Repeat([]byte{byte(c.Intn(256))}, 32)
+			case 1:
+				h = make([]byte, 32)
+			case 2:
+				h[0], h[1] = 0, 0
+			case 3:
+				h[30], h[31] = 0, 0
+			case 4:
+				h[0] = byte(c.Pick([]int{0x80, 0xff}))
 			}
 			var ss [][]byte
 			k := hex.EncodeToString(h)
+			for _, seen := m.Serials[k]; seen; _, seen = m.Serials[k] {
+				h = c.Bytes(32) // the oracle's set model lists each issuer once (duplicates: separate malformed case)
+				k = hex.EncodeToString(h)
+			}
 			m.Issuers = append(m.Issuers, k)
 			m.Serials[k] = []string{}
 			for j := c.Intn(5); j > 0; j-- {
 				s := genSerial(c)
+				if i == 0 && len(ss) == 0 {
+					s = serialShapes[it%len(serialShapes)] // every shape is listed within one run
+				}
+				listed[k] = append(listed[k], s)
 				ss = append(ss, s)
 				m.Serials[k] = append(m.Serials[k], new(big.Int).SetBytes(s).String())
 			}
@@ -410,29 +456,34 @@ func (r *runner) genCRLSets(c *vh.Ctx, n int) {
 		keys := append([]string{}, m.Issuers...)
 		keys = append(keys, hex.EncodeToString(c.Bytes(32)), "")
 		for _, k := range m.Issuers {
-			keys = append(keys, strings.ToUpper(k), k[:63])
+			keys = append(keys, strings.ToUpper(k), k[:63], k[:62], k+"00", k[2:])
 		}
 		keys = append(keys, m.Blocked...)
 		for ki, k := range keys {
 			seen := map[string]bool{}
 			// a listed issuer: its own serials, one of another issuer, 0, 1, a random one;
 			// any other key: a few serials
-			ser := append([]string{}, all[len(all)-3:]...)
+			var ser []string
+			for _, s := range all[len(all)-3:] {
+				ser = append(ser, s, "-"+s)
+			}
 			if ki < len(m.Issuers) {
-				ser = append(ser, m.Serials[k]...)
-				if o := m.Serials[m.Issuers[(ki+1)%len(m.Issuers)]]; len(o) > 0 {
-					ser = append(ser, o[0])
+				for _, b := range listed[k] {
+					ser = append(ser, serialNeighbours(b)...)
+				}
+				if o := listed[m.Issuers[(ki+1)%len(m.Issuers)]]; len(o) > 0 {
+					ser = append(ser, new(big.Int).SetBytes(o[0]).String())
 				}
 			} else if len(all) > 3 {
 				ser = append(ser, all[0])
 			}
-			for _, s := range ser {
-				v, _ := new(big.Int).SetString(s, 10)
-				for _, qs := range []string{s, new(big.Int).Add(v, big.NewInt(1)).String(), new(big.Int).Neg(v).String()} {
-					if !seen[qs] {
-						seen[qs] = true
-						in.Queries = append(in.Queries, query{Serial: qs, Key: k})
-					}
+			for _, qs := range ser {
+				if qs == "-0" {
+					qs = "0"
+				}
+				if !seen[qs] {
+					seen[qs] = true
+					in.Queries = append(in.Queries, query{Serial: qs, Key: k})
 				}
 			}
 		}
@@ -704,7 +755,14 @@ func (r *runner) genSSTs(c *vh.Ctx, n int) {
 		der    []byte
 	}
 	var pool []pc
-	serials := []*big.Int{big.NewInt(1), big.NewInt(255), big.NewInt(256), new(big.Int).Lsh(big.NewInt(1), 127), new(big.Int).SetBytes(bytes.Repeat([]byte{0x7f}, 19))}
+	// serials whose DER / big-endian forms have the boundary shapes: one byte, 0x80 and 0xff first byte
+	// (DER adds a leading 0x00), trailing zero bytes, 16 and 20 bytes
+	var serials []*big.Int
+	for _, b := range [][]byte{{1}, {0x80}, {0xff}, {1, 0}, {0x80, 0}, {0x7f, 0x10, 0, 0}, {1, 0, 0, 0, 0, 0, 0, 0, 0},
+		append([]byte{0x80}, make([]byte, 15)...), append(bytes.Repeat([]byte{0x5a}, 14), 0, 0),
+		append(bytes.Repeat([]byte{0x33}, 18), 0, 0), bytes.Repeat([]byte{0x7f}, 19), append([]byte{0xff}, bytes.Repeat([]byte{0x44}, 19)...)} {
+		serials = append(serials, new(big.Int).SetBytes(b))
+	}
 	for iss := 0; iss < 4; iss++ {
 		for si, s := range serials {
 			if (iss+si)%2 == 0 || si < 2 {
@@ -726,6 +784,9 @@ func (r *runner) genSSTs(c *vh.Ctx, n int) {
 				es = append(es, sstEntry{id: id, enc: uint32(c.Intn(3)), blob: -1, val: c.Bytes(c.Intn(24))})
 			}
 			p := pool[c.Intn(len(pool))]
+			if i == 0 {
+				p = pool[it%len(pool)] // every certificate of the pool is stored within a few runs
+			}
 			k := fmt.Sprint(p.issuer)
 			if _, ok := m.Serials[k]; !ok {
 				m.Issuers = append(m.Issuers, k)
@@ -746,11 +807,25 @@ func (r *runner) genSSTs(c *vh.Ctx, n int) {
 			hb[i] = hex.EncodeToString(b)
 		}
 		in := input{Kind: "sst", Blobs: hb, Chunks: sstChunks(es, blobs, after), Model: m}
-		for qi := 0; qi < 4; qi++ {
-			for _, s := range serials {
-				in.Queries = append(in.Queries, query{Serial: s.String(), Issuer: qi})
+		// every issuer x (every stored serial with its neighbours, three pool serials, 2, -1)
+		var qs []string
+		for _, k := range m.Issuers {
+			for _, sd := range m.Serials[k] {
+				qs = append(qs, serialNeighbours(decToBytes(sd))...)
 			}
-			in.Queries = append(in.Queries, query{Serial: "2", Issuer: qi}, query{Serial: "-1", Issuer: qi})
+		}
+		for j := 0; j < 3; j++ {
+			qs = append(qs, serials[c.Intn(len(serials))].String())
+		}
+		qs = append(qs, "2", "-1")
+		for qi := 0; qi < 4; qi++ {
+			seen := map[string]bool{}
+			for _, q := range qs {
+				if !seen[q] {
+					seen[q] = true
+					in.Queries = append(in.Queries, query{Serial: q, Issuer: qi})
+				}
+			}
 		}
 		r.sst(in)
 
@@ -981,9 +1056,10 @@ func (r *runner) onecrl(in input) {
 func b64(b []byte) string { return base64.StdEncoding.EncodeToString(b) }
 
 func (r *runner) genOneCRLs(c *vh.Ctx, n int) {
-	serialBytes := [][]byte{{1}, {0x0f}, {1, 0}, {0, 0, 7}, bytes.Repeat([]byte{0xee}, 16), {}}
+	serialBytes := append([][]byte{{0x0f}, bytes.Repeat([]byte{0xee}, 16)}, serialShapes...)
 	for it := 0; it < n; it++ {
 		var recs []rec
+		var listed [][]byte
 		m := &setModel{Serials: map[string][]string{}}
 		for k := c.Intn(7); k > 0; k-- {
 			if c.Intn(4) == 0 {
@@ -994,6 +1070,12 @@ func (r *runner) genOneCRLs(c *vh.Ctx, n int) {
 			}
 			ii := c.Intn(4)
 			sb := serialBytes[c.Intn(len(serialBytes))]
+			if len(listed) == 0 {
+				sb = serialBytes[it%len(serialBytes)] // every shape is listed within one run
+			} else if c.Intn(40) == 0 {
+				sb = append(bytes.Repeat([]byte{0xff}, 254), 0)
+			}
+			listed = append(listed, sb)
 			recs = append(recs, rec{IssuerName: b64(nameDER[ii]), SerialNumber: b64(sb), Enabled: c.Bool(), ID: fmt.Sprintf("id-%d", k)})
 			key := fmt.Sprint(ii)
 			if _, ok := m.Serials[key]; !ok {
@@ -1006,9 +1088,21 @@ func (r *runner) genOneCRLs(c *vh.Ctx, n int) {
 		}
 		doc, _ := json.Marshal(map[string]interface{}{"data": recs})
 		in := input{Kind: "onecrl", Doc: string(doc), Model: m}
+		// every issuer x (every listed serial with its neighbours, three other shapes, 2, -1)
+		var qs []string
+		for _, sb := range listed {
+			qs = append(qs, serialNeighbours(sb)...)
+		}
+		for j := 0; j < 3; j++ {
+			qs = append(qs, new(big.Int).SetBytes(serialBytes[c.Intn(len(serialBytes))]).String())
+		}
 		for qi := 0; qi < 4; qi++ {
-			for _, sb := range serialBytes[:5] {
-				in.Queries = append(in.Queries, query{Serial: new(big.Int).SetBytes(sb).String(), Issuer: qi, Subj: c.Intn(len(names)), PubKey: c.Intn(len(pubKeys))})
+			seen := map[string]bool{}
+			for _, q := range qs {
+				if !seen[q] {
+					seen[q] = true
+					in.Queries = append(in.Queries, query{Serial: q, Issuer: qi, Subj: c.Intn(len(names)), PubKey: c.Intn(len(pubKeys))})
+				}
 			}
 			in.Queries = append(in.Queries, query{Serial: "2", Issuer: qi, Subj: -1}, query{Serial: "-1", Issuer: qi, Subj: qi})
 		}
